@@ -593,7 +593,7 @@ STRUCT_WITHOUT = {"codec": "struct", "type": "object",
                   "properties": {"tag": {"type": "integer", "binaryFormat": "i"}}}
 
 META_KINDS = ["none", "raw_bytes", "permissive", "restrictive", "required_foreign",
-              "struct_with", "struct_without", "schema_empty"]
+              "struct_with", "struct_without", "schema_empty", "tsdate_default"]
 
 
 def set_table_metadata(table, kind, rng):
@@ -632,6 +632,17 @@ def set_table_metadata(table, kind, rng):
         table.metadata_schema = tskit.MetadataSchema(STRUCT_WITHOUT)
         sch = table.metadata_schema
         table.packset_metadata([sch.validate_and_encode_row({"tag": int(j)}) for j in range(n)])
+        return
+    if kind == "tsdate_default":
+        # the table was dated before (tsdate's own schema) and annotated afterwards; rows written by
+        # split_disjoint_nodes ("unsplit_node_id") look the same
+        import tsdate.schemas as _sch
+        is_mut = hasattr(table, "derived_state")
+        table.metadata_schema = _sch.default_mutation_schema if is_mut else _sch.default_node_schema
+        sch = table.metadata_schema
+        table.packset_metadata([sch.validate_and_encode_row(
+            {"mn": 1.0 + j, "vr": 0.5, "label": f"a{j}", "qual": int(rng.integers(0, 999))} if j % 3 else
+            {"label": f"a{j}"}) for j in range(n)])
         return
     if kind == "schema_empty":
         table.metadata_schema = tskit.MetadataSchema(PERMISSIVE)
